@@ -28,8 +28,10 @@ CLAIM = dict(
     note="Bounds and monotonicity along the curve, and conservation where it relies on the right-hand side summing to zero, are checked "
          "numerically on the implementation's output (the flow lift is cited, DESIGN section 3.7); the solver (scipy odeint/ode) is assumed to "
          "return the initial value as first row. Modelled in Coq: the 17 ODE *_from_graph wrappers (row 0 correspondence on every run); row0/accepts theorems "
-         "for the homogeneous and heterogeneous mean field, homogeneous pairwise (partial), compact pairwise and super compact wrappers; the other entry points "
-         "(solver-level functions, effective degree, EBCM, pref-mix, individual/pair based, Attack_rate_*_from_graph) are covered by the oracle only.")
+         "for the homogeneous and heterogeneous mean field, homogeneous pairwise (partial), compact pairwise, super compact, SIR effective degree (explicit sets) "
+         "and EBCM_from_graph (partial) wrappers, following the code after the fix: commits; one refutation is left (SIS_heterogeneous_pairwise_from_graph with full data, "
+         "ValueError) and is replayed on the code on every run; the other entry points (solver-level functions, SIS effective degree, compact effective degree, "
+         "heterogeneous pairwise, pref-mix, individual/pair based, Attack_rate_*_from_graph) are covered by the oracle (and, for the 17 wrappers, the row-0 correspondence) only.")
 
 TOL0 = 1e-9
 
